@@ -207,8 +207,9 @@ def randomize_shaped_program(rng):
     return ops
 
 
-def exhaustive_walk(init, univ, depth, kinds=("add", "discard")):
-    """depth-first over all op sequences up to `depth` over `kinds` x `univ`, starting from set(init).
+def exhaustive_walk(init, univ, depth, kinds=("add", "discard"), first=None):
+    """depth-first over all op sequences up to `depth` over `kinds` x `univ`, starting from set(init)
+    (`first` = (kind, x): only the sequences that start with this op - the walk is done in such slices to bound memory).
     -> (lean_lines, expected, paths): node k of the walk is `s <op> <d+1> <d> x` on the Lean side (registers are
     values, so siblings share their prefix); the Python side replays the whole prefix on a fresh real set.
     `paths[k]` is the index of the parent node (-1 for the root) and the op, enough to rebuild the program."""
@@ -228,6 +229,8 @@ def exhaustive_walk(init, univ, depth, kinds=("add", "discard")):
             return
         for k in kinds:
             for x in univ:
+                if d == 0 and first is not None and (k, x) != first:
+                    continue
                 stack.append((k, x))
                 lines.append(f"s {k} {d + 1} {d} {x}")
                 expected.append(observe(replay()))
